@@ -58,14 +58,14 @@ mut("c20_fm_not_restored", "C20", "library.py", _CTX_TAIL, '''        try:
 ''', "factory manager not restored")
 
 # ---------------------------------------------------------------- C12
-_DEFUZZ_CALL = '''        value = self.defuzzifier.defuzzify(self.fuzzy, self.minimum, self.maximum)
+_DEFUZZ_CALL = '''        value = np.array(self.defuzzifier.defuzzify(self.fuzzy, self.minimum, self.maximum))
 
         # previous value is the last element of the value at t
         self.previous_value = np.take(self.value, -1).astype(float)
 '''
 mut("c12_prev_before_defuzz", "C12", "variable.py", _DEFUZZ_CALL, '''        # previous value is the last element of the value at t
         self.previous_value = np.take(self.value, -1).astype(float)
-        value = self.defuzzifier.defuzzify(self.fuzzy, self.minimum, self.maximum)
+        value = np.array(self.defuzzifier.defuzzify(self.fuzzy, self.minimum, self.maximum))
 ''', "previous_value overwritten before a defuzzifier that may raise (fault-only detectable)")
 mut("c12_prev_from_first", "C12", "variable.py", "self.previous_value = np.take(self.value, -1).astype(float)",
     "self.previous_value = np.take(self.value, 0).astype(float)", "previous value from the first row of the last batch")
